@@ -22,8 +22,9 @@ One model step = one critical section / one unlocked statement of the Go code (D
 | `waitReturn` | `wgConn.Wait()` returns: only enabled when the counter is 0 |
 | `onStop`, `stopPollers` | `g.onStop()`; `pollers[i].stop()` + `g.Wait()` |
 
-`timer.Async` is a head-starts-drainer queue, i.e. an instance of `JobQ` (FIFO, exactly once, single drainer: proved
-there); here it is used through that specification as a plain FIFO list.
+`timer.Async` is a head-starts-drainer queue: C05's `ExecQ` with `Kind.async` (FIFO, exactly once, single drainer:
+`c19_async_fifo_exactly_once`, `c19_async_completes` in `Properties/C19.lean`); here it is a plain FIFO list in the
+state — its specification, assumed of the implementation, not re-proved or linked by a lemma in this file.
 
 Ghost state: `scanned`, `cbs` (how often the close callback ran), `snapIn` (conns in the table at the snapshot),
 `raced` (a registration raced the snapshot: a conn was created after the snapshot, or its slot was read while its
